@@ -19,7 +19,7 @@ from ..exceptions import InvalidUnit
 ID_ALPHABET = "0123456789abcdefghijklmnopqrstuv"
 # Unit scaling, SI only, substitutions for micro and ohm...
 PREFIXES = "(Y|Z|E|P|T|G|M|k|h|da|d|c|m|u|n|p|f|a|z|y)"
-UNITS = ("(m|g|s|A|K|mol|cd|Hz|N|Pa|J|W|C|V|F|S|Wb|T|H|lm|lx|Bq|Gy|Sv|kat|l|L|"
+UNITS = ("(mol|m|g|s|A|K|cd|Hz|N|Pa|J|Wb|W|C|V|F|Sv|S|T|H|lm|lx|Bq|Gy|kat|l|L|"
          "Ohm|%|dB|rad)")
 POWER = "(\\^[+-]?[1-9]\\d*)"
 PREFIX_FACTORS = {"y": 1.0e-24,
